@@ -16,6 +16,7 @@ Nodes are tuples:
 References and dereferences are erased (value semantics).
 """
 import ast as pyast
+import re
 from fractions import Fraction
 
 from .facts import AnalysisError
@@ -493,3 +494,60 @@ class Normalizer:
 
 def parse_float_token(text):
     return Fraction(text)
+
+
+def strip(n):
+    """strip transparent wrappers (deref, clone, as_ref, copied...) from a node"""
+    while n[0] == "call" and short_callee(n[1]) in TRANSPARENT and len(n[2]) >= 1:
+        n = n[2][0]
+    return n
+
+
+def origin_desc(n, depth=0):
+    """short structural descriptor of where a value comes from (no line numbers, no local numbers)"""
+    n = strip(n)
+    if depth > 3:
+        return ".."
+    k = n[0]
+    if k == "var" and re.match(r"^_\d+$", n[2]):
+        return "tmp"
+    if k == "kx":
+        d = dict(n[1])
+        if d.get("static"):
+            return d["static"].split("::")[-1]
+        if d.get("fn") or d.get("rfn"):
+            return short_callee(d.get("rfn") or d.get("fn"))
+        return "const"
+    ln = leaf_name(n)
+    if ln is not None:
+        return re.sub(r"\[_\d+\]", "[i]", re.sub(r"(^|\.)_\d+\b", r"\1tmp", ln))
+    if k == "call":
+        nm = short_callee(n[1])
+        # keep self type for workspace methods
+        full = n[1]
+        m = re.search(r"([A-Za-z_][A-Za-z0-9_]*)(?:::<[^>]*>)?::%s$" % re.escape(nm), full)
+        owner = m.group(1) if m and m.group(1) not in ("Option", "Result", "Iterator", "Vec", "T", "impl", "std", "core") else None
+        args = n[2][:2]
+        inner = ",".join(origin_desc(a, depth + 1) for a in args)
+        return "%s%s(%s)" % (owner + "::" if owner else "", nm, inner)
+    if k == "k":
+        return n[1]
+    if k == "s":
+        return '"%s"' % n[1][:30]
+    if k == "bin":
+        return "%s(%s,%s)" % (n[1], origin_desc(n[2], depth + 1), origin_desc(n[3], depth + 1))
+    if k == "proj":
+        return origin_desc(n[1], depth + 1) + "".join(n[2])
+    if k == "agg":
+        if n[1].startswith("closure:"):
+            return "{closure}"
+        return n[1].split("::")[-1] + "{..}"
+    if k == "cast":
+        return origin_desc(n[1], depth + 1)
+    if k == "un":
+        return "%s(%s)" % (n[1], origin_desc(n[2], depth + 1))
+    if k == "discr":
+        return "discr(%s)" % origin_desc(n[1], depth + 1)
+    return k
+
+
